@@ -40,7 +40,9 @@ def regen(ck):
     rc, out = vcheck.sh([os.path.join(ROOT, "translate", "gen_decode_consts")], timeout=60)
     ck.checker_cmds.append("translate/gen_decode_consts")
     ck.obligation("translator gen_decode_consts: every constant of the decoders found exactly once in the source", rc == 0, out[-1500:])
-    if rc != 0:
+    if not os.path.exists(os.path.join(vcheck.COQ, "gen", "DecodeConsts.json")):
+        return None
+    if rc != 0 and "source_changed_shape" in open(os.path.join(vcheck.COQ, "gen", "DecodeConsts.v")).read():
         return None
     info = json.load(open(os.path.join(vcheck.COQ, "gen", "DecodeConsts.json")))
     c = info["consts"]
@@ -114,7 +116,8 @@ def load_jsonl(p):
     return cs
 
 
-def run_correspondence(ck):
+def run_correspondence(ck, consts):
+    henv = {"C03_THRESHOLD": str(consts["THRESHOLD"]), "C03_FLUSH_LIMIT": str(consts["FLUSH_LIMIT"])}
     if not ck.go_build("decode"):
         ck.obligation("harness decode builds against the repository", False, ck.build_out[-1500:])
         return
@@ -146,7 +149,7 @@ def run_correspondence(ck):
                 cases += cs
     n = ck.n(400, 6000)
     outp = os.path.join(ck.work, "decode.jsonl")
-    rc, out = ck.go_run("decode", ["--seed", ck.seed, "--n", n, "--out", outp], timeout=1500)
+    rc, out = ck.go_run("decode", ["--seed", ck.seed, "--n", n, "--out", outp], timeout=1500, env_extra=henv)
     if rc != 0:
         ck.obligation("harness decode ran", False, out[-1500:])
         return
@@ -225,7 +228,7 @@ def run_correspondence(ck):
             distinct.add(json.dumps(c["body"], sort_keys=True))
         if len(c["obs"]["chunks"]) > 1:
             crossed_mib += 1
-        if c["proto"] == "prw" and c["nrows"] >= 1000:
+        if c["proto"] == "prw" and c["nrows"] >= consts["FLUSH_LIMIT"]:
             crossed_1000 += 1
     ck.coverage["evaluations"] += len(cases)
     ck.coverage["distinct_nontrivial"] += len(distinct)
@@ -236,7 +239,7 @@ def run_correspondence(ck):
     ck.extra["remote_write_bodies_with_1000_points_or_more"] = crossed_1000
     ck.extra["parser_errors_by_class"] = errs
     ck.extra["unmodelled_bodies"] = len(unmod)
-    ck.obligation("both flush thresholds are crossed by generated bodies (1 MiB: %d bodies, 1000 points: %d bodies)" % (crossed_mib, crossed_1000),
+    ck.obligation("both flush thresholds are crossed by generated bodies (%d bytes: %d bodies, %d points: %d bodies)" % (consts["THRESHOLD"], crossed_mib, consts["FLUSH_LIMIT"], crossed_1000),
                   crossed_mib > 0 and crossed_1000 > 0)
     ck.add_samples([small(c) for c in cases if c["nrows"] >= 2 and case_weight(c) < 4000][:3])
 
@@ -255,4 +258,4 @@ def run(ck):
         return
     if not ck.coq_props():
         return
-    run_correspondence(ck)
+    run_correspondence(ck, consts)
